@@ -299,7 +299,11 @@ func ppValue(v slip.Object) (pv slip.Object) {
 		}
 	case slip.List:
 		if 0 < len(tv) {
-			pv = slip.List{slip.Symbol("quote"), tv}
+			if hasUnreadable(tv) {
+				pv = tv.LoadForm()
+			} else {
+				pv = slip.List{slip.Symbol("quote"), tv}
+			}
 		}
 	case *slip.Package:
 		pv = slip.List{
@@ -315,6 +319,25 @@ func ppValue(v slip.Object) (pv slip.Object) {
 		pv = ppInstance(tv)
 	}
 	return
+}
+
+// hasUnreadable returns true if the object, a list or an element of a list,
+// includes a hash-table or an instance. Those are not printed readably so the
+// list can not be written as a quoted literal.
+func hasUnreadable(obj slip.Object) bool {
+	switch to := obj.(type) {
+	case slip.List:
+		for _, e := range to {
+			if hasUnreadable(e) {
+				return true
+			}
+		}
+	case slip.Tail:
+		return hasUnreadable(to.Value)
+	case slip.HashTable, slip.Instance:
+		return true
+	}
+	return false
 }
 
 func ppInstance(inst *flavors.Instance) slip.Object {
